@@ -218,7 +218,9 @@ impl<'a> Evaluator<'a> {
             ast::Expr::BinOp(a, op, b) => {
                 let a_value = self._const_eval(a)?;
                 let b_value = self._const_eval(b)?;
-                return Ok(op.const_eval(a_value, b_value));
+                return op.checked_const_eval(a_value, b_value).ok_or_else(|| {
+                    self.emitter.emit(crate::passes::const_simplify::division_by_zero_error(expr.span))
+                });
             },
 
             ast::Expr::Ternary { cond, left, right, .. } => {
